@@ -89,6 +89,16 @@ FILE_TREES = {
         "b/util2.xbb": "name util2\nversion 1.0\n\nCZgate(0.9) | [0, 1]\n",
         "util2.xbb": "name util2\nversion 1.0\n\nVac | 0\nVac | 1\n", "a/util2.xbb": "name util2\nversion 1.0\n\nXgate(1) | 0\nZgate(1) | 1\n",
     },
+    # a template that hands its own parameters on to an included template under names the included template uses for
+    # *other* parameters (binding must be simultaneous, whatever order the parameter set is walked in)
+    "template_include_with_colliding_parameter_names": {
+        "main.xbb": 'name main\nversion 1.0\ninclude "sub.xbb"\n\nsub(alpha={beta}, beta=0.5) | [2, 3]\nRgate({beta}) | 2\n',
+        "sub.xbb": "name sub\nversion 1.0\n\nDgate({alpha} - {beta}, {alpha} + 2*{beta}) | 0\nBSgate({alpha}, {beta}) | [0, 1]\n",
+    },
+    "template_include_with_swapped_parameter_names": {
+        "main.xbb": 'name main\nversion 1.0\ninclude "mix.xbb"\n\nmix(theta={phi}, phi={theta}, gam={phi}*{gam}) | [0, 1]\nmix(theta=0.25, phi={theta}, gam={theta}) | [1, 2]\n',
+        "mix.xbb": "name mix\nversion 1.0\n\nBSgate({theta}+2*{phi}, {phi}-{gam}) | [0, 1]\nRgate({gam}*{theta}*{phi}) | 0\n",
+    },
 }
 
 
